@@ -138,6 +138,8 @@ def prepare_evo_aspirate_dispense_parameters(
     wells_list = list(np.atleast_1d(wells).flatten("F"))
     if not len(wells_list) == len(tips):
         raise ValueError(f"Invalid wells: wells and tips need to have the same length.")
+    if len(set(wells_list)) != len(wells_list):
+        raise ValueError(f"Invalid wells: every well may be selected only once, but got {wells_list}.")
     if labware_position is None:
         raise ValueError("Missing required parameter: position")
     grid, site = labware_position
@@ -176,6 +178,9 @@ def prepare_evo_aspirate_dispense_parameters(
 
     # apply rounding and corrections for the right string formatting
     volume_list: List[float] = np.round(volume, decimals=2).tolist()
+    # EVOware pairs the selected tips (ascending) with the selected wells (ascending row order):
+    # order the volumes by their well, so that every well gets the volume that was given for it
+    volume_list = [v for _, v in sorted(zip(wells_list, volume_list), key=lambda wv: wv[0])]
 
     if liquid_class is None:
         raise ValueError(f"Missing required parameter: liquid_class")
